@@ -75,6 +75,13 @@ def generate(ctx):
                 lines.append([h, body])
             if not any(h == "S" for h, _ in lines):
                 lines.append(["S", rand_regex_text(rng)])
+            if rng.random() < 0.4:
+                # a later alternative whose text is a piece of the text of an earlier alternative of the same head
+                h, b = rng.choice(lines)
+                toks = [t.strip("()*") for t in b.split()]
+                runs = [toks[i:j] for i in range(len(toks)) for j in range(i + 1, min(i + 3, len(toks) + 1)) if all(t.isalnum() for t in toks[i:j])]
+                if runs:
+                    lines.append([h, " ".join(rng.choice(runs))])
             c["ebnf"] = lines
         cases.append(c)
     return cases
